@@ -166,6 +166,9 @@ def emit_traversals(R, namespace, path, note):
         else:
             prog.append(f"({['letStart', 'pushOpcode', None, None, 'eachOperand', 'letEnd'].index(st[0])}, 0)")
     f.list_def("asmInstruction", "Nat × Nat", prog)
+    # assemble_str as a program: 0 chunksExact n | 1 remainder | 2 lastZero n | 3 copyRemainder | 4 extendChunksLE | 5 pushLastLE
+    names = ["chunksExact", "remainder", "lastZero", "copyRemainder", "extendChunksLE", "pushLastLE"]
+    f.list_def("asmStr", "Nat × Nat", [f"({names.index(k)}, {v})" for k, v in R["asm_str"]])
     return write_if_changed(path, f.text())
 
 
